@@ -4,7 +4,7 @@ from __future__ import annotations
 
 from .. import gen, probe, spec
 from ..probe import violation
-from .common import call, grow_while_asking
+from .common import call, grow_while_asking, use_as_input_of_derivations
 from .c03 import make_prefix_free
 
 PROP = "C06"
@@ -92,6 +92,11 @@ def run_case(ctx, g, rng):
                 S.counters["wl:uris"] += 1
     for u in ("", "zzz", "http://nope/1"):
         call(c.standardize_uri, u)
+    if g % 4 == 3:
+        for x in use_as_input_of_derivations(api, c, rng):
+            call(c.standardize_prefix, x)
+            call(c.standardize_curie, x + d + "1")
+            call(c.standardize_uri, x)
     if g % 151 == 0:
         p = known[-1]
         probe.sample({**w, "built": how, "prefix": p, "standardize_prefix": call(c.standardize_prefix, p),
